@@ -406,7 +406,10 @@ func main() {
 	ff := append(fixedFiles(), fixedTails()...)
 	if longLines {
 		v := "v 0 0 0\nv 1 0 0\nv 0 1 0\n"
-		ff = append(ff, v+"# "+strings.Repeat("x", 70000)+"\nf 1 2 3\n", v+"f 1 2 3"+strings.Repeat(" ", 65536)+"\n")
+		ff = append(ff, v+"# "+strings.Repeat("x", 70000)+"\nf 1 2 3\n", v+"f 1 2 3"+strings.Repeat(" ", 65536)+"\n",
+			// far beyond one buffer: 200 000 bytes, and a line of more than 1 MiB (OBJ has no limit at all)
+			v+"g a\nusemtl m\nf 1 2 3\n# "+strings.Repeat("long ", 40000)+"\nf 3 2 1\n",
+			v+"g a\nf 1 2 3\n# "+strings.Repeat("0123456789abcdef", 70000)+"\nusemtl m\nf 3 2 1\n")
 	}
 	for _, t := range ff {
 		if c, ok := fileCase(fileDesc{Text: t}); ok {
